@@ -166,6 +166,17 @@ func (s *Sim) persistEntries(n *Node) {
 		n.Phase = PhasePersisted
 		return
 	}
+	if n.BootMember && n.Disk.HS == nil && hsOf(rd) != nil {
+		// The first write of a node started through Bootstrap(peers) carries
+		// the bootstrap entries and the hard state that commits them; a node
+		// that kept the entries but lost that hard state could never apply
+		// its own membership (and Bootstrap refuses a non-empty storage), so
+		// the application must make this write atomic.
+		if s.writeAtomic(n, nil, rd.Entries, hsOf(rd), true) {
+			n.Phase = PhasePersisted
+		}
+		return
+	}
 	if !s.writeEntries(n, rd.Entries) {
 		return
 	}
@@ -333,6 +344,15 @@ func (s *Sim) applyEntries(n *Node, ents []*pb.Entry) {
 				var cs *pb.ConfState
 				if !s.touch(n, &Cause{Kind: "applyconf", Msg: &pb.Message{Index: new(idx)}}, func() { cs = n.RN.ApplyConfChange(cci) }) {
 					return
+				}
+				if len(n.SM.Conf.Voters) == 2 {
+					for v := range n.SM.Conf.Voters {
+						if !next.Voters[v] {
+							// README: removing/demoting a voter of a two-voter
+							// set is the documented liveness exception
+							s.Stats.inc("conf.two_voter_shrink")
+						}
+					}
 				}
 				n.SM.Conf = next
 				s.Stats.inc("conf.applied")
@@ -544,7 +564,7 @@ func (s *Sim) Crash(n *Node, partialAppend, loseUnsynced bool) {
 	s.begin("Crash(%d partial=%v loseUnsynced=%v phase=%d)", n.ID, partialAppend, loseUnsynced, n.Phase)
 	if partialAppend && n.Opts.Async && len(n.AppendQ) > 0 {
 		m := n.AppendQ[0]
-		if m.GetSnapshot() == nil && len(m.GetEntries()) > 0 {
+		if m.GetSnapshot() == nil && len(m.GetEntries()) > 0 && !(n.BootMember && n.Disk.HS == nil) {
 			s.writeEntries(n, m.GetEntries())
 			s.Stats.inc("crash.partial_append")
 		}
